@@ -15,7 +15,7 @@ let err_name = function
   | WrongCount -> "WrongCount"
 
 let of_result = function
-  | Ok (n, f) -> L [A "ok"; of_zbig n; of_cnf_big f]
+  | DOk (n, f) -> L [A "ok"; of_zbig n; of_cnf_big f]
   | Err (e, k) -> L [A "err"; A (err_name e); of_zbig k]
 
 let () =
